@@ -450,6 +450,20 @@ func (w *world) applyCP(t []string, s, b int, v *cpPres) error {
 				p.RowProof.EndRow--
 			}
 		}
+	case "strip":
+		// the vacuous proof: nothing left to check, inverted row range (uint32 row count 0), commitment of nothing
+		p.SubtreeRoots = p.SubtreeRoots[:0:0]
+		p.SubtreeRootProofs = p.SubtreeRootProofs[:0:0]
+		p.RowProof.RowRoots = p.RowProof.RowRoots[:0:0]
+		p.RowProof.Proofs = p.RowProof.Proofs[:0:0]
+		p.RowProof.StartRow, p.RowProof.EndRow = 1, 0
+		v.com = gsmerkle.HashFromByteSlices(nil)
+	case "cprows":
+		// row range rewritten to wrap modulo 2^32 (only for proofs over >= 2 rows, as in the model)
+		if n := len(p.RowProof.RowRoots); n >= 2 {
+			p.RowProof.StartRow = uint32(int64(1 - n))
+			p.RowProof.EndRow = 0
+		}
 	case "ns":
 		p.NamespaceID = otherNsID(w, s, p.NamespaceID)
 	case "com":
